@@ -86,15 +86,11 @@ theorem asRunH_no_storageError (S : Sys) (h : List Ev) (a : AS) : ∀ o ∈ (asR
     · exact asStep_no_storageError S e a
     · exact ih _ o ho
 
-/-- **C03 (partial: modulo F3; the storage lock is the environment's).** For every backend tied to the abstract
-    storage, every state reachable without faults (`Rep`, `Inv`), every finite set of HTTP-level requests (any mix of
-    AddVersion / GetChildVersion / AddSnapshot / GetSnapshot, new and existing clients) and every schedule at
-    storage-call granularity under which all requests complete: there is an order of the requests, a permutation
-    respecting real-time precedence, whose one-at-a-time execution on the same backend meets no storage error, ends
-    in the same protocol-visible state, and gives every request a response that an HTTP client cannot tell from the
-    one it got – except that an AddSnapshot may have been answered 200 where the one-at-a-time run says 404 (F3). -/
-theorem C03_linearizable_partial (I : Impl σ) (S : Sys) (hS : S.ensure = ensureClientFixed) (evs : List Ev)
-    (hhttp : ∀ e ∈ evs, e.isHttp = true) (s0 : σ) (seen0 : List Uuid)
+/-- The common core of the two linearizability theorems below: request sets that are all-HTTP or all-library
+    (`ReqMix`), responses related by `RespRel` (equal, or – only when an HTTP AddVersion is among the requests –
+    indistinguishable for an HTTP client modulo F3). -/
+theorem C03_linearizable_core (I : Impl σ) (S : Sys) (hS : S.ensure = ensureClientFixed) (evs : List Ev)
+    (hmix : ReqMix evs) (s0 : σ) (seen0 : List Uuid)
     (hrep : I.Rep s0) (hinv : Inv (I.abs s0)) (hseen : Seen (I.abs s0) seen0)
     (sch : List Nat) (hdist : DistinctIds evs seen0) (hcausal : Causal I S evs s0 sch)
     (hfin : ∀ x ∈ (runSmall I.B I.mode (cinit S evs s0) sch).threads, ∃ o, x = Th.finished o) :
@@ -107,7 +103,7 @@ theorem C03_linearizable_partial (I : Impl σ) (S : Sys) (hS : S.ensure = ensure
         Good I s' ∧ (∀ o' ∈ outs, o' ≠ Out.storageError) ∧
         ∀ (i t : Nat), order[i]? = some t →
           ∃ o' e o, outs[i]? = some o' ∧ evs[t]? = some e ∧
-            (runSmall I.B I.mode (cinit S evs s0) sch).threads[t]? = some (Th.finished o) ∧ sameRespF3 e o o' := by
+            (runSmall I.B I.mode (cinit S evs s0) sch).threads[t]? = some (Th.finished o) ∧ RespRel evs e o o' := by
   -- layer 1: reduction, prefix by prefix
   obtain ⟨sched', _, hred, hpre⟩ := C03_reduction_prefix I.B I.mode (cinit S evs s0) (ainit S evs s0)
     (red_init I.B s0 (evs.map (·.req S))) sch
@@ -194,7 +190,7 @@ theorem C03_linearizable_partial (I : Impl σ) (S : Sys) (hS : S.ensure = ensure
             rw [hxt] at hx'; cases hx'
             rw [hxt_nf] at hxf'; cases hxf'
         · exact h4 u e' hut heu hmem
-  have hriF := runinv_run I S hS evs hhttp a0 seen0 sched' (ainit S evs s0) m0 hri0 hcb
+  have hriF := runinv_run I S hS evs hmix a0 seen0 sched' (ainit S evs s0) m0 hri0 hcb
   -- all threads of the machine are finished, with the responses of the interleaved run
   have hthread : ∀ (t : Nat) (e : Ev), evs[t]? = some e → ∃ o, (mrun S evs m0 sched').ph[t]? = some (Phase.finished o) ∧
       (runSmall I.B I.mode (cinit S evs s0) sch).threads[t]? = some (Th.finished o) := by
@@ -218,7 +214,7 @@ theorem C03_linearizable_partial (I : Impl σ) (S : Sys) (hS : S.ensure = ensure
     rw [List.getElem?_eq_getElem ht, hpt] at ho
     exact ⟨o, Option.some.inj ho⟩
   -- layer 3: the machine is linearizable
-  obtain ⟨hperm, hrt, hst, hids, hfst, houts⟩ := machine_linearizable S evs hhttp a0 hnc sched' hmfin
+  obtain ⟨hperm, hrt, hst, hids, hfst, houts⟩ := machine_linearizable S evs hmix a0 hnc sched' hmfin
   have hfreshO : Fresh (evsOf evs (linOrder (mrun S evs m0 sched').log)) seen0 := hriF.fresh
   have hlt : ∀ t ∈ linOrder (mrun S evs m0 sched').log, t < evs.length := by
     intro t ht; exact List.mem_range.mp ((List.Perm.mem_iff hperm).mp ht)
@@ -228,7 +224,7 @@ theorem C03_linearizable_partial (I : Impl σ) (S : Sys) (hS : S.ensure = ensure
   · -- real-time order
     intro t u hprec
     obtain ⟨p', q', x, y, hs', hx, hxf, hy, hyi⟩ := hprecA t u hprec
-    have hriP := runinv_prefix I S hS evs hhttp a0 seen0 sched' (ainit S evs s0) m0 hri0 hcb p' q' hs'
+    have hriP := runinv_prefix I S hS evs hmix a0 seen0 sched' (ainit S evs s0) m0 hri0 hcb p' q' hs'
     have htl : t < evs.length := by
       rw [← hriP.arel.lenA]; exact (List.getElem?_eq_some_iff.mp hx).1
     have hul : u < evs.length := by
@@ -293,6 +289,64 @@ theorem C03_linearizable_partial (I : Impl σ) (S : Sys) (hS : S.ensure = ensure
       refine ⟨pr.2, e, o2, ?_, he, hc2, hresp⟩
       rw [← q2, List.getElem?_map, hL]; rfl
 
+
+/-- **C03 (partial: modulo F3; the storage lock is the environment's).** For every backend tied to the abstract
+    storage, every state reachable without faults (`Rep`, `Inv`), every finite set of HTTP-level requests (any mix of
+    AddVersion / GetChildVersion / AddSnapshot / GetSnapshot, new and existing clients) and every schedule at
+    storage-call granularity under which all requests complete: there is an order of the requests, a permutation
+    respecting real-time precedence, whose one-at-a-time execution on the same backend meets no storage error, ends
+    in the same protocol-visible state, and gives every request a response that an HTTP client cannot tell from the
+    one it got – except that an AddSnapshot may have been answered 200 where the one-at-a-time run says 404 (F3). -/
+theorem C03_linearizable_partial (I : Impl σ) (S : Sys) (hS : S.ensure = ensureClientFixed) (evs : List Ev)
+    (hhttp : ∀ e ∈ evs, e.isHttp = true) (s0 : σ) (seen0 : List Uuid)
+    (hrep : I.Rep s0) (hinv : Inv (I.abs s0)) (hseen : Seen (I.abs s0) seen0)
+    (sch : List Nat) (hdist : DistinctIds evs seen0) (hcausal : Causal I S evs s0 sch)
+    (hfin : ∀ x ∈ (runSmall I.B I.mode (cinit S evs s0) sch).threads, ∃ o, x = Th.finished o) :
+    ∃ order : List Nat, order.Perm (List.range evs.length) ∧
+      (∀ t u, Precedes I S evs s0 sch t u → Before order t u) ∧
+      Fresh (evsOf evs order) seen0 ∧
+      ∃ s' outs, runHC I.B I.mode S (evsOf evs order) s0 = (outs, s', true) ∧
+        (∀ c, (I.abs (runSmall I.B I.mode (cinit S evs s0) sch).db).st c = (I.abs s').st c) ∧
+        (I.abs (runSmall I.B I.mode (cinit S evs s0) sch).db).ids = (I.abs s').ids ∧
+        Good I s' ∧ (∀ o' ∈ outs, o' ≠ Out.storageError) ∧
+        ∀ (i t : Nat), order[i]? = some t →
+          ∃ o' e o, outs[i]? = some o' ∧ evs[t]? = some e ∧
+            (runSmall I.B I.mode (cinit S evs s0) sch).threads[t]? = some (Th.finished o) ∧ sameRespF3 e o o' := by
+  obtain ⟨order, h1, h2, h3, s', outs, h4, h5, h6, hg, h7, h8⟩ :=
+    C03_linearizable_core I S hS evs (.inl hhttp) s0 seen0 hrep hinv hseen sch hdist hcausal hfin
+  refine ⟨order, h1, h2, h3, s', outs, h4, h5, h6, hg, h7, ?_⟩
+  intro i t hi
+  obtain ⟨o', e, o, q1, q2, q3, q4⟩ := h8 i t hi
+  exact ⟨o', e, o, q1, q2, q3, q4.weaken⟩
+
+/-- **C03 through the library interface (strict: no relaxation).** When the requests are `Server::add_version`,
+    `get_child_version`, `add_snapshot`, `get_snapshot` called directly – each one transaction, no client creation –
+    every request gets *exactly* the response of the one-at-a-time execution, and the final protocol-visible state
+    is that execution's. (F3 needs the HTTP AddVersion's separate creation transaction; without it there is nothing
+    to relax.) -/
+theorem C03_library_linearizable (I : Impl σ) (S : Sys) (hS : S.ensure = ensureClientFixed) (evs : List Ev)
+    (hlib : ∀ e ∈ evs, e.isLib = true) (s0 : σ) (seen0 : List Uuid)
+    (hrep : I.Rep s0) (hinv : Inv (I.abs s0)) (hseen : Seen (I.abs s0) seen0)
+    (sch : List Nat) (hdist : DistinctIds evs seen0) (hcausal : Causal I S evs s0 sch)
+    (hfin : ∀ x ∈ (runSmall I.B I.mode (cinit S evs s0) sch).threads, ∃ o, x = Th.finished o) :
+    ∃ order : List Nat, order.Perm (List.range evs.length) ∧
+      (∀ t u, Precedes I S evs s0 sch t u → Before order t u) ∧
+      Fresh (evsOf evs order) seen0 ∧
+      ∃ s' outs, runHC I.B I.mode S (evsOf evs order) s0 = (outs, s', true) ∧
+        (∀ c, (I.abs (runSmall I.B I.mode (cinit S evs s0) sch).db).st c = (I.abs s').st c) ∧
+        (I.abs (runSmall I.B I.mode (cinit S evs s0) sch).db).ids = (I.abs s').ids ∧
+        Good I s' ∧ (∀ o' ∈ outs, o' ≠ Out.storageError) ∧
+        ∀ (i t : Nat), order[i]? = some t →
+          ∃ o, outs[i]? = some o ∧ (runSmall I.B I.mode (cinit S evs s0) sch).threads[t]? = some (Th.finished o) := by
+  obtain ⟨order, h1, h2, h3, s', outs, h4, h5, h6, hg, h7, h8⟩ :=
+    C03_linearizable_core I S hS evs (.inr hlib) s0 seen0 hrep hinv hseen sch hdist hcausal hfin
+  refine ⟨order, h1, h2, h3, s', outs, h4, h5, h6, hg, h7, ?_⟩
+  intro i t hi
+  obtain ⟨o', e, o, q1, q2, q3, q4⟩ := h8 i t hi
+  rcases q4 with rfl | ⟨⟨e', he', hav⟩, _⟩
+  · exact ⟨o, q1, q3⟩
+  · have := hlib e' he'
+    cases e' <;> simp [Ev.isAv, Ev.isLib] at hav this
 
 /-! ## from the empty database, for the two shipped backends; the "in particular" clauses -/
 
@@ -518,5 +572,82 @@ theorem C03_relaxation_needed :
     ∀ order ∈ [[0, 1, 2], [1, 0, 2], [1, 2, 0]], seqResponses order ≠ observedIn order := by decide
 
 end C03Ex
+
+/-! ## non-vacuity of the library-level theorem -/
+
+namespace C03LibEx
+open C03Ex (S)
+
+/-- the state after the client has been created (by an earlier, completed request) -/
+def s1 := (runHC sqlImpl.B sqlImpl.mode S [.create ⟨1⟩] sqlImpl.init).2.1
+
+/-- two library AddVersions on the same parent and a GetChildVersion, all overlapping -/
+def evs : List Ev :=
+  [ .avLib ⟨1⟩ Uuid.nil ⟨#[1]⟩ ⟨10⟩ 0, .avLib ⟨1⟩ Uuid.nil ⟨#[2]⟩ ⟨11⟩ 0, .gcv ⟨1⟩ Uuid.nil ]
+/-- round-robin at storage-call granularity -/
+def sch : List Nat := (List.replicate 14 [0, 1, 2]).flatten
+
+def observed : List (Option Out) := (runSmall sqlImpl.B sqlImpl.mode (cinit S evs s1) sch).threads.map Th.resp
+
+/-- one accepted, the other refused with the accepted id, the reader sees the accepted version -/
+example : observed = [some (.avOk ⟨10⟩ .high), some (.avConflict ⟨10⟩), some (.found ⟨⟨10⟩, Uuid.nil, ⟨#[1]⟩⟩)] := by decide
+
+theorem evs_cases (t : Nat) (e : Ev) (h : evs[t]? = some e) :
+    (t = 0 ∧ e = evs[0]) ∨ (t = 1 ∧ e = evs[1]) ∨ (t = 2 ∧ e = evs[2]) := by
+  match t, h with
+  | 0, h => simp [evs] at h ⊢; exact h.symm
+  | 1, h => simp [evs] at h ⊢; exact h.symm
+  | 2, h => simp [evs] at h ⊢; exact h.symm
+  | (k+3), h => simp [evs] at h
+
+theorem s1_good : sqlImpl.Rep s1 ∧ Inv (sqlImpl.abs s1) ∧ Seen (sqlImpl.abs s1) [] := by
+  obtain ⟨s', h1, h2, hg⟩ := hist_init sqlImpl S rfl [.create ⟨1⟩] (by simp [Fresh, FreshEv, Ev.drawn])
+  have hs : s' = s1 := by unfold s1; rw [h1]
+  subst hs
+  refine ⟨hg.rep, hg.inv, ?_⟩
+  rw [h2]
+  refine ⟨?_, ?_⟩
+  · intro i hi; simp [asRunH, asStep, Ev.client, cstep, addedId] at hi
+  · intro c hc
+    exfalso; apply hc
+    simp only [asRunH, asStep, Ev.client, cstep]
+    by_cases h : c = ⟨1⟩
+    · subst h; simp [upd_same, cCreate]
+    · simp [upd_other _ _ _ _ h]
+
+/-- the hypotheses of `C03_library_linearizable` are satisfiable: this execution meets all of them -/
+example : (∀ e ∈ evs, e.isLib = true) ∧ sqlImpl.Rep s1 ∧ Inv (sqlImpl.abs s1) ∧ Seen (sqlImpl.abs s1) [] ∧
+    DistinctIds evs [] ∧ Causal sqlImpl S evs s1 sch ∧
+    (∀ x ∈ (runSmall sqlImpl.B sqlImpl.mode (cinit S evs s1) sch).threads, ∃ o, x = Th.finished o) := by
+  refine ⟨by decide, s1_good.1, s1_good.2.1, s1_good.2.2, ?_, ?_, ?_⟩
+  · intro t e n he hd
+    rcases evs_cases t e he with ⟨rfl, rfl⟩ | ⟨rfl, rfl⟩ | ⟨rfl, rfl⟩ <;> simp [evs, Ev.drawn] at hd <;> subst hd <;>
+    · refine ⟨by decide, by simp, by decide, ?_⟩
+      intro u e' hu he'
+      rcases evs_cases u e' he' with ⟨rfl, rfl⟩ | ⟨rfl, rfl⟩ | ⟨rfl, rfl⟩ <;> first | exact absurd rfl hu | decide
+  · intro t u e e' n he he' hd hn
+    exfalso
+    rcases evs_cases t e he with ⟨rfl, rfl⟩ | ⟨rfl, rfl⟩ | ⟨rfl, rfl⟩ <;> simp [evs, Ev.drawn] at hd <;> subst hd <;>
+    · rcases evs_cases u e' he' with ⟨rfl, rfl⟩ | ⟨rfl, rfl⟩ | ⟨rfl, rfl⟩ <;> revert hn <;> decide
+  · have h : (runSmall sqlImpl.B sqlImpl.mode (cinit S evs s1) sch).threads.map Th.resp =
+        [some (.avOk ⟨10⟩ .high), some (.avConflict ⟨10⟩), some (.found ⟨⟨10⟩, Uuid.nil, ⟨#[1]⟩⟩)] := by decide
+    intro x hx
+    obtain ⟨i, hi, rfl⟩ := List.getElem_of_mem hx
+    have hi' : ((runSmall sqlImpl.B sqlImpl.mode (cinit S evs s1) sch).threads.map Th.resp)[i]? =
+        some (Th.resp (runSmall sqlImpl.B sqlImpl.mode (cinit S evs s1) sch).threads[i]) := by
+      simp [hi]
+    rw [h] at hi'
+    generalize (runSmall sqlImpl.B sqlImpl.mode (cinit S evs s1) sch).threads[i] = th at hi'
+    have hsome : ∃ o, Th.resp th = some o := by
+      match i, hi' with
+      | 0, h0 => exact ⟨_, (Option.some.inj h0).symm⟩
+      | 1, h0 => exact ⟨_, (Option.some.inj h0).symm⟩
+      | 2, h0 => exact ⟨_, (Option.some.inj h0).symm⟩
+      | (k+3), h0 => simp at h0
+    obtain ⟨o, ho⟩ := hsome
+    cases th <;> simp [Th.resp] at ho
+    exact ⟨o, by rw [ho]⟩
+
+end C03LibEx
 
 end Tcs
